@@ -759,6 +759,81 @@ fn quiesce<'a>(tasks: &mut Vec<LTask<'a>>, held: &mut Vec<(G<'a>, bool)>, f: &mu
   }
 }
 
+/// Racing pair: from a quiescent single-threaded state (lock held, one or two futures Pending behind it) two
+/// threads perform one action each at the same time - the holder releases, a pending future is dropped - under
+/// schedule chaos. Afterwards the lock is free, so every future still pending must have been woken; a future
+/// that completes on a spontaneous re-poll without its waker having fired lost the wake-up (it was spent on
+/// the future that was being dropped). Returns (findings, signature).
+fn run_race(rw: bool, seed: u64, exec: u64, rng: &mut Rng) -> (Vec<Finding>, u64) {
+  let mut f: Vec<Finding> = vec![];
+  let m = HybridMutex::new(Protected { plain: 0 });
+  let l = HybridRwLock::new(Protected { plain: 0 });
+  chaos::set_profile(&chaos::Profile::pick_tiny(rng));
+  let shape = rng.below(if rw { 4 } else { 1 });
+  // who holds, who waits first (the one to be dropped), who waits behind it
+  let mut sig = vh_core::Fnv::default();
+  sig.u64(rw as u64 * 16 + shape);
+  macro_rules! race {
+    ($guard:expr, $f1:expr, $f2:expr, $what:expr) => {{
+      let g = $guard;
+      let mut f1 = Box::pin($f1);
+      let mut f2 = Box::pin($f2);
+      let (fl1, fl2) = (Flag::new(), Flag::new());
+      let p1 = poll_once(f1.as_mut(), &fl1).is_pending();
+      let p2 = poll_once(f2.as_mut(), &fl2).is_pending();
+      if p1 && p2 {
+        let start = std::sync::Barrier::new(2);
+        std::thread::scope(|sc| {
+          let st = &start;
+          sc.spawn(move || {
+            let _c = chaos::enter(seed, exec, 1);
+            st.wait();
+            drop(g);
+          });
+          sc.spawn(move || {
+            let _c = chaos::enter(seed, exec, 2);
+            st.wait();
+            drop(f1);
+          });
+        });
+        // quiescent again: the lock is free and f1 is gone
+        let woken = fl2.count() > 0;
+        sig.u64(woken as u64 * 2 + (fl1.count() > 0) as u64);
+        let fresh = Flag::new();
+        match poll_once(f2.as_mut(), if woken { &fl2 } else { &fresh }) {
+          Poll::Ready(_g2) => {
+            if !woken {
+              f.push(Finding {
+                rule: "lost-wake".into(),
+                summary: format!("{}: after the holder released and the first waiter's future was dropped at the same moment, the second waiter acquires on a spontaneous re-poll but its waker was never invoked (first waiter's waker fired: {})", $what, fl1.count() > 0),
+                detail: json!({"shape": $what}),
+              });
+            }
+          }
+          Poll::Pending => {
+            f.push(Finding {
+              rule: "pending-on-idle-lock".into(),
+              summary: format!("{}: the lock is free and nobody else waits, yet the remaining waiter's poll returns Pending", $what),
+              detail: json!({"shape": $what, "woken": woken}),
+            });
+          }
+        }
+      }
+    }};
+  }
+  if !rw {
+    race!(m.try_lock().expect("fresh mutex"), m.lock_async(), m.lock_async(), "mutex: lock_async behind lock_async");
+  } else {
+    match shape {
+      0 => race!(l.try_write().expect("fresh rwlock"), l.write_async(), l.write_async(), "rwlock: writer behind writer, held exclusively"),
+      1 => race!(l.try_write().expect("fresh rwlock"), l.write_async(), l.read_async(), "rwlock: reader behind writer, held exclusively"),
+      2 => race!(l.try_read().expect("fresh rwlock"), l.write_async(), l.write_async(), "rwlock: writer behind writer, held shared"),
+      _ => race!(l.try_write().expect("fresh rwlock"), l.read_async(), l.write_async(), "rwlock: writer behind reader, held exclusively"),
+    }
+  }
+  (f, sig.finish())
+}
+
 fn main() {
   let args = Args::parse();
   vh_core::install_quiet_panic_hook();
@@ -769,7 +844,8 @@ fn main() {
     cancelled / try_ acquisitions, try-under-hold, or writer-vs-overlapping-readers) on 2-8 threads under schedule chaos, \
     non-trivial = more than one thread acquired, distinct = hash of the stamp-ordered acquisition interleaving; stepper: \
     one evaluation = one single-threaded program of spawn/poll/re-poll/drop of lock futures and guards, non-trivial = \
-    some future was Pending, distinct = hash of the action trace"
+    some future was Pending, distinct = hash of the action trace; race: one evaluation = one racing pair (holder releases \
+    while the first of two pending futures is dropped on another thread, under chaos), then a quiescence check"
     .into();
   let canary = Canary::start();
   let cfg = StuckCfg::default();
@@ -780,10 +856,30 @@ fn main() {
     exec += 1;
     let threaded = match only.as_deref() {
       Some("threaded") => true,
-      Some("stepper") => false,
+      Some("stepper") | Some("race") => false,
       _ => exec % 2 == 0,
     };
-    if threaded {
+    let race = !cfg!(miri) && match only.as_deref() {
+      Some("race") => true,
+      Some(_) => false,
+      None => exec % 4 == 1,
+    };
+    if race {
+      for i in 0..300u64 {
+        let rw = rng.chance(2, 3);
+        let case_seed = rng.next();
+        let (findings, sig) = run_race(rw, case_seed, exec * 1000 + i, &mut rng);
+        res.executions += 1;
+        res.count("race/pairs", 1);
+        res.add_nontrivial(sig ^ (case_seed & 0xff));
+        for f in findings {
+          let sig = format!("C10/{}/{}/race", if rw { "rwlock" } else { "mutex" }, f.rule);
+          res.violation(&sig, &f.summary, &args.replay_dir, &json!({"rwlock": rw, "case_seed": case_seed, "detail": f.detail}));
+        }
+      }
+      let totals = chaos::take_totals();
+      res.count_obj("chaos", &totals.to_json());
+    } else if threaded {
       let rw = rng.chance(2, 3);
       // odd shards: tiny scripts with change points on the first steps (short races around cancel / release)
       let tiny = cfg!(miri) || args.get("tiny").is_some() || args.shard % 2 == 1;
